@@ -736,6 +736,30 @@ pub fn check_multi(doc: &str, files: &[String], evals: &mut u64) -> Result<Optio
     }
     let obs: Result<Vec<Obs>, String> = docs.iter().map(obs_from_report).collect();
     m(agree(&reference, &union(obs.map_err(|x| (x, "c07:multi:json".to_string()))?), "multi-file plain -o json"), "c07:multi:json")?;
+    // the same through --payload (rules texts instead of files), console and plain -o json
+    {
+        let nonblank: Vec<String> = files.iter().filter(|f| !f.trim().is_empty()).cloned().collect();
+        *evals += 1;
+        let r = validate_payload(&nonblank, &[doc.to_string()], &[], &VOpts::plain(Fmt::Json, vec![Show::None]));
+        if r.code != Ok(want_code) {
+            return Err(e(format!("multi-file --payload -o json: exit {:?}, expected {}", r.code, want_code), "c07:multi:exit-code"));
+        }
+        let docs = json_docs(&r.out).map_err(|x| (format!("multi-file --payload -o json: {}", x), "c07:multi:json".to_string()))?;
+        if docs.len() != nonblank.len() {
+            return Err(e(format!("multi-file --payload -o json printed {} documents for {} rules texts", docs.len(), nonblank.len()), "c07:multi:payload"));
+        }
+        let obs: Result<Vec<Obs>, String> = docs.iter().map(obs_from_report).collect();
+        m(agree(&reference, &union(obs.map_err(|x| (x, "c07:multi:payload".to_string()))?), "multi-file --payload -o json"), "c07:multi:payload")?;
+        *evals += 1;
+        let r = validate_payload(&nonblank, &[doc.to_string()], &[], &VOpts::plain(Fmt::Single, vec![Show::All]));
+        if r.code != Ok(want_code) {
+            return Err(e(format!("multi-file --payload console: exit {:?}, expected {}", r.code, want_code), "c07:multi:exit-code"));
+        }
+        let n_tables = strip_ansi(&r.out).lines().filter(|l| l.contains(" Status = ")).count();
+        if n_tables != nonblank.len() {
+            return Err(e(format!("multi-file --payload console printed {} summary tables for {} rules texts", n_tables, nonblank.len()), "c07:multi:payload"));
+        }
+    }
     // structured json / yaml: one merged report
     for fmt in [Fmt::Json, Fmt::Yaml] {
         *evals += 1;
